@@ -5017,9 +5017,20 @@ def _svd_worker(a, full_matrices, compute_uv, overwrite_a, cutoff, qtotal_LR, in
         return (None, S, None)
     # else: compute_uv is True
     if full_matrices:
-        new_leg_L = a.legs[0].conj()
-        new_leg_R = a.legs[1].conj()
+        legL, legR = a.legs
+        # gauge the new legs such that U and VH obey the charge rule with the requested qtotal_L, qtotal_R
+        charges_L = chinfo.make_valid((legL.charges * legL.qconj - qtotal_L) * inner_qconj)
+        charges_R = chinfo.make_valid((qtotal_R - legR.charges * legR.qconj) * inner_qconj)
+        new_leg_L = LegCharge.from_qind(chinfo, legL.slices, charges_L, -inner_qconj)
+        new_leg_R = LegCharge.from_qind(chinfo, legR.slices, charges_R, inner_qconj)
         qi_L, qi_R = a._qdata.T
+        # sectors of `a` without a stored block need identity blocks to make U and VH unitary
+        miss_L = np.array([qi for qi in range(legL.block_number) if qi not in qi_L], np.intp)
+        miss_R = np.array([qi for qi in range(legR.block_number) if qi not in qi_R], np.intp)
+        U_data.extend([np.eye(legL.slices[qi + 1] - legL.slices[qi], dtype=a.dtype) for qi in miss_L])
+        VH_data.extend([np.eye(legR.slices[qi + 1] - legR.slices[qi], dtype=a.dtype) for qi in miss_R])
+        qi_L = np.concatenate([qi_L, miss_L])
+        qi_R = np.concatenate([qi_R, miss_R])
         U_qdata = np.stack([qi_L, qi_L], axis=1).astype(np.intp)
         VH_qdata = np.stack([qi_R, qi_R], axis=1).astype(np.intp)
     else:
@@ -5043,7 +5054,7 @@ def _svd_worker(a, full_matrices, compute_uv, overwrite_a, cutoff, qtotal_LR, in
     VH._qdata = VH_qdata
     if full_matrices:
         U._qdata_sorted = np.all(qi_L[:-1] < qi_L[1:])
-        VH._qdata_sorted = a._qdata_sorted
+        VH._qdata_sorted = np.all(qi_R[:-1] < qi_R[1:])
     else:
         U._qdata_sorted = a._qdata_sorted
         VH._qdata_sorted = a._qdata_sorted
